@@ -54,7 +54,7 @@ class C11(Check):
     ID = 'C11'
     TRACE_FILES = ('client/__init__.py',)
     TIERS = {'quick': {'runs': 20000, 'wall': 100}, 'thorough': {'runs': 400000, 'wall': 840}}
-    RULE = ('[a fifth of the cases are focus cases: same key, same instant, immediate replies, streaming peer] ' 'case = 2..4 caller tasks x <= 6 requests each (equal/distinct keys, ping/read/change/unknown actions, '
+    RULE = ('[a third of the cases: the peer takes only 12 or 24 bytes at a time; replies written in two pieces; shutdown() of a reset socket fails with ENOTCONN] ' '[a fifth of the cases are focus cases: same key, same instant, immediate replies, streaming peer] ' 'case = 2..4 caller tasks x <= 6 requests each (equal/distinct keys, ping/read/change/unknown actions, '
             'unique id per request) + peer reply script (order, delays up to beyond the 10 s time-out, error replies, '
             'interleaved updates, unsolicited replies, garbage, half lines) + <= 3 faults (peer close/reset/black hole '
             'before, between and inside exchanges, refused reconnects, user disconnect at any time, also '
